@@ -27,6 +27,8 @@ Decides:
                    proposal: `drink eat Fastfood`); State::get / ArgsIter yield only in-scope present items (the probe on a one-item window
                    cannot see the value slot outside it; shared with C05).
  L by one          ArgRangesIter::next moves its cursor by exactly one per step (every position is a candidate start).
+ W command window  an adjacent command runs its subparser only on the adjacently available run (first attempt) or the consumed block (retry).
+ C registry        short names inside adjacent groups reach the cluster registry, so `-x10` / `-ab` are split and the block is found (shared with C02).
 Does not decide: which vectors are accepted for a given shape (index arithmetic over run-time ledgers)."""
 import re
 from core import *
@@ -49,6 +51,9 @@ def run(ctx):
         ctx.guard(c08.keep_only, ctx, lambda: c05.scope_restore(ctx, cfg, fs), lambda o: 'ParseAdjacent' in o.key or 'adjacent-ok-scope' in o.key, 'A.attempts')
         ctx.guard(c08.keep_only, ctx, lambda: c10.best_effort(ctx, cfg, fs), lambda o: 'failure-scope' in o.key or 'failure-hands-back' in o.key, 'A.attempts')
         ctx.guard(window, ctx, cfg, fs)
+        ctx.guard(command_window, ctx, cfg, fs)
+        import c12
+        ctx.guard(c12.walker_rules, ctx, cfg, fs, 'C.contiguous', {'collect_shorts': c12.WALKERS['collect_shorts']})
         ctx.guard(contiguous, ctx, cfg, fs)
         ctx.guard(prefix, ctx, cfg, fs)
         ctx.guard(adjacent_scope, ctx, cfg, fs)
@@ -98,7 +103,7 @@ def eval_scopes(b):
             va = store.get(sk(a), ('unknown', 'swap')); vb = store.get(sk(x), ('unknown', 'swap'))
             store[sk(a)] = vb; store[sk(x)] = va
             return None
-        if c.is_(r'as Parser<.*>>::eval$', r'^Parser::eval$', r'Parser<T> for std::boxed::Box'):
+        if c.is_(r'as Parser<.*>>::eval$', r'^Parser::eval$', r'Parser<T> for std::boxed::Box', r'OptionParser::<T>::run_subparser$'):
             sid = scopes.state_id(b, c.args[1], c.bb) if len(c.args) > 1 else None
             rec.append((c.bb, sid, store.get(sk(sid), ('unknown', 'never narrowed'))))
         if c.dest and not c.dest[1] and b.local_ty(c.dest[0]) == scopes.STATE_TY:
@@ -107,6 +112,30 @@ def eval_scopes(b):
     w = Walker(b, call_model=cm, max_paths=20000, max_visits=2)
     w.run(0, {sk('args'): ('entry',)})
     return rec
+
+def command_window(ctx, cfg, fs):
+    """an ADJACENT command judges only its own block: every run of its subparser happens on a scope cut down to the run of items that
+    are still present right after the name (first attempt) or to what that attempt consumed (retry) - never on `name..end of the
+    enclosing scope`, where an item already taken by an enclosing parser would be stepped over and the command would pick up
+    arguments from behind it"""
+    b = ctx.look(fs.one(r'^<params::ParseCommand<T> as Parser<T>>::eval$'))
+    rec = eval_scopes(b)
+    adj = [sw for sw in switches(b) if sw.kind == 'bool' and any(r.kind == 'param' and r.what == 'self' and r.path == ['adjacent'] for r in sw.roots)]
+    if not rec or len(adj) != 1:
+        raise Broken('ParseCommand::eval: runs of the subparser / the test of self.adjacent not found')
+    in_adj = reachable_edges(b, adj[0].target(True)) - reachable_edges(b, adj[0].target(False))
+    by = {}
+    for (bb, sid, sc) in rec:
+        by.setdefault(bb, set()).add(sc)
+    n = 0
+    for bb, got in sorted(by.items()):
+        if bb not in in_adj:
+            continue
+        n += 1
+        ok = bool(got) and got <= {('narrow', 'adjacent-run'), ('narrow', 'adjacent_scope')}
+        ctx.ob('W.window', 'ParseCommand::eval:adjacent-run-scope', ok, 'an adjacent command runs its subparser on %s (expected: the adjacently available run / the consumed block)' % sorted(map(str, got)), where=b.where(bb), cfg=cfg)
+    if n < 2:
+        ctx.ob('W.window', 'ParseCommand::eval:adjacent-run-scope', False, 'the adjacent branch of ParseCommand::eval runs the subparser at %d site(s), expected the first attempt and the retry' % n, where=b.where(), cfg=cfg)
 
 def window(ctx, cfg, fs):
     b = ctx.look(fs.one(r'^<structs::ParseAdjacent<P> as Parser<T>>::eval$'))
